@@ -1,6 +1,7 @@
 package harness
 
 import (
+	"bytes"
 	"fmt"
 
 	"github.com/emersion/go-imap/v2"
@@ -204,6 +205,7 @@ func runC06(r *R) {
 
 	// dry run (cut classes): transcript length as sent by the conforming peer
 	var total int64
+	var dryStream []byte
 	if mode != 1 {
 		dry := c06Exec(r, g.cmds, nil, capsVariant, useMem, 0, 0, 0, simrt.ReplayTape(nil), simrt.Config{MaxSteps: 300000})
 		if r.Res.Infra != "" {
@@ -215,11 +217,30 @@ func runC06(r *R) {
 			return
 		}
 		total = dry.sent
+		dryStream = dry.cliStream
 		r.trace = r.trace[:0]
 	}
 	off := int64(0)
 	if mode != 1 {
 		off = int64(ksel) % (total + 1)
+		// 1 sampled cut in 5 lands where in-flight state is richest: right behind an IDLE line (the peer is idling) or
+		// right behind a literal announcement (the server has invited or is about to invite the payload)
+		if ksel > c06SweepMax && ksel%5 == 0 && dryStream != nil { // (the thorough sweep forces ksel <= c06SweepMax: it keeps enumerating every offset)
+			var marks []int64
+			for _, pat := range []string{" IDLE\r\n", "}\r\n"} {
+				for i := 0; ; {
+					j := bytes.Index(dryStream[i:], []byte(pat))
+					if j < 0 {
+						break
+					}
+					marks = append(marks, int64(i+j+len(pat)))
+					i += j + len(pat)
+				}
+			}
+			if len(marks) > 0 {
+				off = marks[(ksel/5)%len(marks)]
+			}
+		}
 		r.Tracef("class=cut backend-mem=%v caps=%d transcript=%d bytes, cut=%s at client byte %d", useMem, capsVariant, total, simnet.CutNames[kind], off)
 		for i := range g.cmds {
 			r.Tracef("cmd %s", describeCmd(&g.cmds[i]))
@@ -249,6 +270,7 @@ type c06Out struct {
 	healthy       *rawPeer
 	fromGenerator bool
 	peer          *rawPeer
+	cliStream     []byte // everything the peer wrote (dry run: the full transcript as sent)
 }
 
 func c06Exec(r *R, cmds []rawCmd, blob []byte, capsVariant int, useMem bool, kind int, off int64, netMode int, sched *simrt.Tape, cfg simrt.Config) *c06Out {
@@ -339,6 +361,7 @@ func c06Exec(r *R, cmds []rawCmd, blob []byte, capsVariant int, useMem bool, kin
 		})
 		waitOrTimeout(done, 48*time.Hour)
 		out.sent = cc.OutWritten()
+		out.cliStream = append([]byte{}, cc.Written()...)
 		stopHealthy = true
 		waitOrTimeout(healthyDone, 2*time.Hour)
 		if healthy != nil {
